@@ -459,3 +459,28 @@ pub proof fn lemma_atc_survives(w: World, d: Db, a: Seq<u8>, letter: u8, v: Seq<
         assert(k == k0);
     }
 }
+// ---- rebuild: the strict byte order is irreflexive, so an ascending scan never meets a key twice ----
+pub proof fn lemma_bytes_lt_irrefl(a: Seq<u8>)
+    ensures !bytes_lt(a, a)
+    decreases a.len()
+{
+    if a.len() > 0 { lemma_bytes_lt_irrefl(a.subrange(1, a.len() as int)); }
+}
+// in the id table an event has exactly one key: its id
+pub proof fn lemma_no_tag_key_in_id_table(e: Seq<u8>, k: Seq<u8>, n: int)
+    ensures !is_tag_key(e, T_I(), k, n)
+    decreases n
+{
+    if n > 0 { lemma_no_tag_key_in_id_table(e, k, n - 1); }
+}
+pub proof fn lemma_id_table_key(e: Seq<u8>, k: Seq<u8>)
+    ensures is_event_key(e, T_I(), k) == (k == ev_id(e))
+{
+    lemma_no_tag_key_in_id_table(e, k, t_count(ev_tags(e)));
+}
+// the items of a whole-table scan: every entry, once, ascending
+pub open spec fn items_all(items: Seq<(Seq<u8>, u64)>, tab: Table) -> bool {
+    &&& forall|i: int| 0 <= i < items.len() ==> #[trigger] tab.contains_key(items[i].0) && tab[items[i].0] == items[i].1
+    &&& forall|k: Seq<u8>| #[trigger] tab.contains_key(k) ==> exists|i: int| 0 <= i < items.len() && #[trigger] items[i].0 == k
+    &&& forall|i: int, j: int| 0 <= i < j < items.len() ==> bytes_lt(#[trigger] items[i].0, #[trigger] items[j].0)
+}
